@@ -71,7 +71,14 @@ def env_callables(vc, nS, nE, with_tau=False):
     return V, rates, Builtin('vMat', Vf), Builtin('eventRateVector', Rf), calls
 
 
-@contract('C04/firstReaction', ['C04', 'C05', 'C10', 'C11', 'C16'], SS + 'firstReaction',
+def _replay(kind):
+    def r(clause, m):
+        from contracts import native_steps
+        return native_steps.search(kind)
+    return r
+
+
+@contract('C04/firstReaction', ['C04', 'C05', 'C10', 'C11', 'C16'], SS + 'firstReaction', replay=_replay('firstReaction'),
           also=[SS + '_newJumpTimes', SS + '_updateStateWithJump', 'pygom.utilR.distn:rexp'])
 def first_reaction(vc):
     """firstReaction: stop when no event can fire; otherwise the earliest exponential clock fires,
@@ -151,8 +158,17 @@ def to_real_dim(d):
 
 
 def adaptive_tau_summary(it, args, kw):
-    """assumed here, proved separately where reachable (C04/adaptive-tau): returns a positive step"""
-    it.ctx.note_trusted("_get_adaptive_tau_step returns a positive step (stand-in checks it natively)")
+    """contract of _get_adaptive_tau_step, proved in C04/_get_adaptive_tau_step: for non-negative rates that are not all
+    zero and a positive epsilon it returns a positive step (the non-negative variances are the C03 contract of
+    get_TransitionVar: a sum of squares times rates)"""
+    a = list(args) + [kw[n_] for n_ in ('x', 't', 'rates', 'transition_mean_func', 'transition_var_func', 'epsilon')[len(args):]]
+    x, t, rates, meanf, varf, eps = a
+    k = z3.Int(it.ctx._name('kr'))
+    n = to_real_dim(rates.shape[0])
+    it.ctx.oblige("pre(_get_adaptive_tau_step): some rate is positive, none negative",
+                  z3.And(z3.ForAll([k], z3.Implies(z3.And(k >= 0, k < n), rates.get((k,)) >= 0)),
+                         z3.Exists([k], z3.And(k >= 0, k < n, rates.get((k,)) > 0))))
+    it.ctx.oblige("pre(_get_adaptive_tau_step): epsilon > 0", to_real(eps) > 0)
     tau = it.ctx.fresh_real('tau_adaptive')
     it.ctx.assume(tau > 0)
     return tau
@@ -251,8 +267,63 @@ def make_tauleap(fixed):
             vc.ensure('rejected: time and state unchanged', z3.And(t_new == t, x_new is x))
             vc.canary('canary: rejected leap reachable', z3.BoolVal(False))
     run.__doc__ = "tauLeap with %s step: Poisson counts with mean tau*rate, state moves by V.n + pure*tau, limits decide acceptance" % ('a fixed' if fixed else 'an adaptive')
-    contract(cid, ['C04', 'C10', 'C11', 'C16'], SS + 'tauLeap', also=[SS + '_updateStateWithJump', 'pygom.utilR.distn:rpois'])(run)
+    contract(cid, ['C04', 'C10', 'C11', 'C16'], SS + 'tauLeap', also=[SS + '_updateStateWithJump', 'pygom.utilR.distn:rpois'],
+             replay=_replay('tauLeap-fixed' if fixed else 'tauLeap-adaptive'))(run)
 
 
 make_tauleap(True)
 make_tauleap(False)
+
+
+def replay_adaptive(clause, m):
+    """bounded native search: random non-negative rates (not all zero), means of either sign, non-negative variances"""
+    import numpy as np
+    from contracts import native
+    ss = native.imp('pygom.model.stochastic_simulation')
+    rng = np.random.RandomState(11)
+    for trial in range(400):
+        nE = int(rng.randint(1, 5))
+        rates = rng.uniform(0, 3, nE) * (rng.uniform(size=nE) < 0.7)
+        if not rates.any():
+            rates[0] = 1.0
+        mu = rng.uniform(-3, 3, nE) * (rng.uniform(size=nE) < 0.7)
+        s2 = rng.uniform(0, 3, nE) * (rng.uniform(size=nE) < 0.7)
+        eps = float(rng.uniform(0.01, 0.5))
+        try:
+            tau = ss._get_adaptive_tau_step(np.zeros(2), 0.0, rates, lambda x, t: mu.copy(), lambda x, t: s2.copy(), eps)
+            ok = bool(tau > 0)
+        except Exception as e:
+            ok, tau = False, "raises %s" % e
+        if not ok:
+            return {'reproduced': True, 'input': dict(rates=rates.tolist(), mu=mu.tolist(), sigma2=s2.tolist(), epsilon=eps), 'observed': ["adaptive step = %s" % (tau,)],
+                    'found_by': 'bounded random search (400 trials, 1-4 events)'}
+    return {'reproduced': False, 'searched': '400 random inputs, 1-4 events'}
+
+
+@contract('C04/_get_adaptive_tau_step', ['C04', 'C11'], SS + '_get_adaptive_tau_step', replay=replay_adaptive)
+def adaptive_tau(vc):
+    """_get_adaptive_tau_step returns a positive step whenever some rate is positive (epsilon > 0, rates >= 0,
+    variances of rate change >= 0): this discharges the assumption used by C04/tauLeap/adaptive-tau."""
+    nS, nE = vc.int('nS', ge=1), vc.int('nE', ge=1)
+    x = vc.array('x', (nS,))
+    t = vc.real('t')
+    rates = vc.array('rates', (nE,))
+    mu = vc.array('mu', (nE,))
+    sigma2 = vc.array('sigma2', (nE,))
+    k = z3.Int('kr')
+    vc.require('rates are non-negative and not all zero (tauLeap returns before this call otherwise)',
+               z3.And(z3.ForAll([k], z3.Implies(z3.And(k >= 0, k < nE), rates.get((k,)) >= 0)),
+                      z3.Exists([k], z3.And(k >= 0, k < nE, rates.get((k,)) > 0))))
+    vc.require('variances of rate change are non-negative (C03: sum of squares times rates)',
+               z3.ForAll([k], z3.Implies(z3.And(k >= 0, k < nE), sigma2.get((k,)) >= 0)))
+    eps = vc.real('epsilon')
+    vc.require('epsilon positive', eps > 0)
+    meanF = Builtin('transitionMean', lambda it, a_, k_: mu.copy())
+    varF = Builtin('transitionVar', lambda it, a_, k_: sigma2.copy())
+    vc.it.sum_nonneg_lemma = True
+    out = vc.call(vc.func(), x, t, rates, meanF, varF, eps)
+    vc.ensure('returns normally', out.returned)
+    if not out.returned:
+        return
+    vc.ensure('the adaptive step is positive', to_real(out.value) > 0)
+    vc.canary('canary: reachable', z3.BoolVal(False))
